@@ -22,7 +22,7 @@ pub fn run(op: &str, a: &[&str]) -> Option<String> {
         }
         "ktie.poly.finish" => {
             let mut p = cryptoxide::poly1305::Poly1305::verif_from_state(u32s::<5>(a[0]), u32s::<5>(a[1]), u32s::<4>(a[2]));
-            let mut out = [0u8; 16];
+            let mut out = [0xa5u8; 16];
             p.raw_result(&mut out);
             hex(&out)
         }
